@@ -28,20 +28,31 @@ def base_program():
                   mkfunc("p", calls=[call("q")], rich=False), mkfunc("q", calls=[call("p")], rich=False),
                   # w declares its dependency (dependencies=[g2]); the module name g2 is later re-bound to g3 and back
                   mkfunc("g2", rich=False), mkfunc("g3", rich=False), dict(mkfunc("w", calls=[call("g2")], rich=False), deps=["g2"]),
+                  # we calls e2; e2 / e3 have DECLARED versions and the module name e2 is later re-bound to e3 and back
+                  mkfunc("e2", kind="explicit", version="1", rich=False), mkfunc("e3", kind="explicit", version="2", rich=False),
+                  mkfunc("we", calls=[call("e2")], rich=False),
+                  # c uses two closures made by one factory, and tr (an alias of a builtin: nothing watches it)
+                  mkfunc("c", calls=[call("double"), call("triple"), call("tr")], rich=False),
+                  mkfunc("h2", kind="plain", rich=False),  # (never re-defined: what a closure name gets re-bound to)
                   # n is declared with auto_dependencies=False: what it reads and calls is not part of its version
                   dict(mkfunc("n", calls=[call("h")], reads=["GV"], rich=False), no_auto=True)],
-        "stmts": {"@keep": "g2_orig = g2", "@bind_t": "g2 = g2_orig"},
+        "stmts": {"@keep": "g2_orig = g2", "@bind_t": "g2 = g2_orig", "@keep_e": "e2_orig = e2", "@bind_e": "e2 = e2_orig",
+                  "@factory": "def make(k_):\n    def scale(x, k_=k_):\n        return x * k_\n    return scale", "@double": "double = make(2)", "@triple": "triple = make(3)",
+                  "@tr": "tr = len"},
         "vars": {"G": 5, "GL": [1, 2], "HV": 1, "GV": 1},
         # Alt.Z is missing like cfg.Z (same attribute name, another owner); cfg.inner.W is a missing attribute two levels down
         "classes": {"In1": {"V": 1}, "C1": {"X": 10, "inner": {"__ref__": "In1"}}, "C2": {"X": 20, "inner": {"__ref__": "In1"}}, "Alt": {"X": 30}},
         "bindings": {"cfg": "C1"},
-        "order": ["f", "g", "h", "lk", "r", "p", "q", "abs", "g2", "g3", "@keep", "@bind_t", "w", "n"],
+        "order": ["f", "g", "h", "lk", "r", "p", "q", "abs", "g2", "g3", "@keep", "@bind_t", "w", "n", "e2", "e3", "@keep_e", "@bind_e", "we", "h2", "@factory", "@double", "@triple", "@tr", "c"],
         "late": ["lk"],
     }
 
 
-QUERIED = ("f", "g", "r", "p", "q", "w", "n")
-EVENTS = ["redef_f", "redef_g", "redef_h", "redef_r", "redef_q", "redef_h_default", "redef_h_kwdefault", "rebind_G", "rebind_HV", "rebind_GV", "mutate_GL", "def_k_helper", "def_k_var", "def_abs_helper", "rebind_t", "toggle_g_kind",
+# w (declared dependencies) is asked LAST: the rule of a declared dependency always reports a change (its resolver hands back the
+# resolver function instead of calling it), so every version query of w bumps the global generation and makes every function
+# asked after it re-compute from scratch - which would hide a stale version of those
+QUERIED = ("f", "g", "r", "p", "q", "n", "we", "c", "w")
+EVENTS = ["redef_f", "redef_g", "redef_h", "redef_r", "redef_q", "redef_h_default", "redef_h_kwdefault", "rebind_G", "rebind_HV", "rebind_GV", "mutate_GL", "def_k_helper", "def_k_var", "def_abs_helper", "rebind_t", "rebind_e", "rebind_double", "rebind_triple", "def_tr_explicit", "toggle_g_kind",
           "rebind_cfg", "def_attr_Z", "def_attr_AltZ", "def_attr_W", "def_k_none", "clone_f", "clone_f_quiet", "clone_n", "wrap_f", "query_f", "query_g"]
 
 
@@ -79,6 +90,14 @@ def apply_to_ast(P, ev):
         Q["bindings"]["cfg"] = "C2" if Q["bindings"]["cfg"] == "C1" else "C1"
     elif ev == "rebind_t":  # the declared dependency of w now names the other function (no registration happens)
         Q["stmts"]["@bind_t"] = "g2 = g3" if Q["stmts"]["@bind_t"] == "g2 = g2_orig" else "g2 = g2_orig"
+    elif ev == "rebind_e":
+        Q["stmts"]["@bind_e"] = "e2 = e3" if Q["stmts"]["@bind_e"] == "e2 = e2_orig" else "e2 = e2_orig"
+    elif ev in ("rebind_double", "rebind_triple"):  # one of the two closures is replaced by another plain function (and back)
+        n_ = ev[7:]
+        orig = "%s = make(%d)" % (n_, 2 if n_ == "double" else 3)
+        Q["stmts"]["@" + n_] = "%s = h2" % n_ if Q["stmts"]["@" + n_] == orig else orig
+    elif ev == "def_tr_explicit":  # the alias of a builtin is re-defined as a memento function with a declared version
+        Q["stmts"]["@tr"] = "@m.memento_function(version='1')\ndef tr(x=1):\n    return x"
     elif ev == "def_attr_Z":
         Q["classes"][Q["bindings"]["cfg"]]["Z"] = 5
     elif ev == "def_attr_AltZ":
@@ -100,6 +119,8 @@ def enabled(P, ev):
         return "abs" not in fm
     if ev == "query_g":
         return fm["g"]["kind"] == "memento"
+    if ev == "def_tr_explicit":
+        return P["stmts"]["@tr"] == "tr = len"
     if ev == "def_attr_Z":
         return "Z" not in P["classes"][P["bindings"]["cfg"]]
     if ev == "def_attr_AltZ":
@@ -127,8 +148,26 @@ def apply_live(P, Q, ev, mods, root, objs):
     if ev == "def_attr_W":
         a.In1.W = 7
         return None
+    if ev == "rebind_e":
+        setattr(a, "e2", getattr(a, Q["stmts"]["@bind_e"].split("= ")[1]))
+        return None
+    if ev in ("rebind_double", "rebind_triple"):
+        n_ = ev[7:]
+        rhs = Q["stmts"]["@" + n_].split("= ", 1)[1]
+        setattr(a, n_, a.h2 if rhs == "h2" else a.make(2 if n_ == "double" else 3))
+        return None
+    if ev == "def_tr_explicit":
+        farm._exec_into(a, "import twosigma.memento as m\n" + Q["stmts"]["@tr"] + "\n", root, False)
+        return None
     if ev == "rebind_t":
         setattr(a, "g2", getattr(a, Q["stmts"]["@bind_t"].split("= ")[1]))
+        return None
+    if ev == "query_all":
+        for n_ in QUERIED[:-1]:
+            try:
+                getattr(a, n_).version()
+            except Exception:
+                pass
         return None
     if ev == "clone_f_quiet":
         # a modifier clone is made and kept; nobody asks for its version now
@@ -268,7 +307,8 @@ def program_after(hist):
     return P
 
 
-WARM_EVENTS = ["rebind_G", "mutate_GL", "redef_h", "clone_f_quiet", "clone_f", "wrap_f", "rebind_cfg"]
+WARM_EVENTS = ["rebind_G", "mutate_GL", "redef_h", "clone_f_quiet", "clone_f", "wrap_f", "rebind_cfg", "rebind_t", "rebind_e", "rebind_double", "rebind_triple",
+               "def_tr_explicit", "def_k_none", "def_attr_AltZ"]
 
 
 def expand(cfg, hist):
@@ -437,10 +477,10 @@ def run(ctx):
     ctx.merge([r])
     # the same search started from a module whose versions have all been asked for once (every function has rules to go stale)
     wd = 4 if thorough else 3
-    rw = vbfs.explore(expand, (wd, ctx.seed, ("query_f", "query_g")), vbfs.digest("init-warm"), max_depth=wd, label="c13-warm")
+    rw = vbfs.explore(expand, (wd, ctx.seed, ("query_all",)), vbfs.digest("init-warm"), max_depth=wd, label="c13-warm")
     rw["caps"] = [c for c in rw["caps"] if "depth cap" not in c]
     ctx.merge([rw])
-    ctx.rule += " A second search to depth %d over %s starts after f and g have been asked for their versions." % (wd, WARM_EVENTS)
+    ctx.rule += " A second search to depth %d over %s starts after every function has been asked for its version once." % (wd, WARM_EVENTS)
     ar = addr_reuse_case(4000 if thorough else 1000)
     ctx.merge([ar])
     ctx.extra["address_reuse"] = {"helpers": AR_HELPERS, "redefinitions_until_a_freed_address_was_reused": ar["reused_after"]}
